@@ -68,7 +68,8 @@ CHECKS = {
     "C17": dict(engine="K+RS", technique="Kani inductive-step harnesses for sign invariants (all f64); RS/z3 inductive range invariants under exact reals", design="6/C17",
         text="!(sum_2<0) etc. preserved by add and merge for arbitrary symbolic operands (bit-precise, no restriction on conditioning) so no variance accessor is negative; "
              "mean within [min,max], weighted mean within range, W2<=W^2<=n*W2 => effective_len in [1,len], bin variance in [0,total/4] as inductive invariants in exact reals.",
-        note="Trusted: CBMC; A-REAL for the range claims (the C*n*2^-53 slack is exactly what real semantics leaves out); N in {4,6}; float-heavy harnesses in thorough tier."),
+        note="Trusted: CBMC; A-REAL for the range claims (the C*n*2^-53 slack is exactly what real semantics leaves out); N in {4,6}; float-heavy harnesses in thorough tier. "
+             "One OPEN KNOWN FINDING (known_findings.json): WeightedMean::merge leaves the sample range when weight*mean products under-/overflow f64 (bounded corpus weighted.extreme_weights.*)."),
     "C20": dict(engine="K+RS", technique="Kani harnesses with kani::stub recorders (order-sensitive) for the ingestion glue, inductive base/step for concatenate!, RS term identity for estimate()", design="6/C20", category="proof",
         text="estimate() = headline accessor (term identity / bit-precise), concatenate! base+step+accessors complete; collect/extend/add-loop agreement for all types "
              "with FromIterator/Extend for sequences of length <= 3 (bounded, listed separately in the evidence).",
